@@ -74,17 +74,37 @@ class Session:
 
 
 def classify_shell(sess, line):
-    """which handler would the shell use: instrument by wrapping execute and do_* lookups"""
+    """which handler does the shell use: the REAL `onecmd` is run on the line with every `do_*` handler, `execute` and
+    `error` of the instance replaced by recorders"""
     sh = sess.shell
-    cmd_, arg, pline = sh.parseline(line)
-    if not cmd_:
+    rec = []
+    patched = []
+
+    def patch(name, fn):
+        setattr(sh, name, fn)
+        patched.append(name)
+    _, arg0, _ = sh.parseline(line)
+    for name in dir(type(sh)):
+        if name.startswith('do_'):
+            patch(name, lambda arg, n=name[3:]: rec.append('command:%s:%s' % (n, arg)))
+    patch('execute', lambda text: rec.append('query:' + text))
+
+    def on_error(message):
+        m = message.split('"')
+        rec.append('command:%s:%s' % (m[1] if len(m) >= 3 else '?', arg0 or ''))
+    patch('error', on_error)
+    try:
+        with warnings.catch_warnings():
+            warnings.simplefilter('ignore')
+            sh.onecmd(line)
+    except Exception as exc:  # noqa: BLE001
+        rec.append('EXC:' + type(exc).__name__)
+    finally:
+        for name in patched:
+            delattr(sh, name)
+    if not rec:
         return 'nothing'
-    if not pline.startswith('.'):
-        lc = cmd_.lower()
-        if lc not in {'clear', 'errors', 'exit', 'help', 'history', 'parse', 'quit', 'run', 'set'}:
-            return 'query:' + pline
-        return 'command:%s:%s' % (lc, arg)
-    return 'command:%s:%s' % (cmd_, arg)
+    return ' + '.join(rec)
 
 
 def set_layer(ctx, sess):
@@ -159,7 +179,16 @@ def render_api(sess, statement_text, close=None):
     if st.numberify:
         desc, rows = numberify.numberify_results(desc, rows, dcontext.build())
     out = io.StringIO()
-    shell.FORMATS[st.format](desc, rows, out, dcontext=dcontext, **st.todict())
+    # the reference is the renderer of the API (query_render), called with the settings by name - not the shell's own
+    # format plug-in, which is part of what is being checked
+    from beanquery import query_render
+    if st.format == 'csv':
+        query_render.render_csv(desc, rows, dcontext, out, expand=st.expand, nullvalue=st.nullvalue)
+    elif not rows:
+        print('(empty)', file=out)
+    else:
+        query_render.render_text(desc, rows, dcontext, out, expand=st.expand, boxed=st.boxed, spaced=st.spaced,
+                                 nullvalue=st.nullvalue, narrow=st.narrow, unicode=st.unicode)
     return out.getvalue()
 
 
@@ -190,6 +219,23 @@ def query_layer(ctx, sess):
                 sess.settings_line(), q, out[:200], want[:200], err[:200]), payload={'query': q})
         if sess.shell.settings.format == 'text' and want == '' and out != '(empty)\n' and not q.startswith('PRINT'):
             pass
+    # every format x expand on a result with multi-position inventories and NULLs
+    for fmt in ('csv', 'text'):
+        for expand in ('true', 'false'):
+            sess.run('.set format %s' % fmt)
+            sess.run('.set expand %s' % expand)
+            for q in ("SELECT account, sum(position) AS total GROUP BY account ORDER BY account",
+                      "SELECT date, account, balance, cost_number"):
+                out, err = sess.run(q)
+                ctx.evaluations += 1
+                ctx.count('format-x-expand')
+                try:
+                    want = render_api(sess, q)
+                except Exception as exc:  # noqa: BLE001
+                    want = 'EXC:' + type(exc).__name__
+                if err.strip() or out != want:
+                    ctx.record_violation('shell-output-differs-from-api-rendering', 'settings %s; %s: shell %r ... api %r ... err %r' % (
+                        sess.settings_line(), q, out[:200], want[:200], err[:200]), payload={'query': q})
     # empty text result prints "(empty)"
     sess.run('.set format text')
     out, err = sess.run("SELECT date FROM #postings WHERE account = 'nothing'")
